@@ -348,6 +348,11 @@ def framekey(f):
         return generic(f)
 
 
+# also distinguish cache entries by the IDENTITY of their render args (equal-valued but distinct objects); set by
+# C09's quick tier only - it roughly doubles the cached state spaces
+CANON_IDENTITY = False
+
+
 def impl_canon(im):
     """Everything the future behaviour of the iterator depends on (see c08.py for the argument).  The state
     the current implementation has is read field by field; anything else found in the instance, in the live
@@ -367,7 +372,8 @@ def impl_canon(im):
     csig = None
     if cache is not None:
         csig = tuple((None if e[0] is None else framekey(e[0]), None if e[1] is None else tuple(e[1]), durkey(e[2]),
-                      None if e[3] is None else argkey(e[3])) + tuple(generic(x) for x in e[4:])
+                      None if e[3] is None else (argkey(e[3]), CANON_IDENTITY and e[3] is it._render_args))   # value (AND identity)
+                     + tuple(generic(x) for x in e[4:])
                      if type(e) is tuple and len(e) >= 4 else generic(e) for e in cache)
     extra = [(k, generic(v)) for k, v in loc.items() if k not in _KNOWN_LOCALS]
     extra += [(k, generic(v)) for k, v in it.__dict__.items() if k not in _KNOWN_ATTRS]
